@@ -38,7 +38,7 @@ pub fn run_case(c: &Value) -> CaseResult {
         "vtree_mgr" => vtree::run(c),
         "hasher_hist" | "hasher_all" => hasher::run(c),
         "sdd_prog" => sdd::run(c),
-        "lat_eu" | "lat_real" | "lat_bool" | "lat_rational" => lattice::run(c),
+        "lat_eu" | "lat_real" | "lat_bool" | "lat_rational" | "lat_complex" => lattice::run(c),
         "compile_expr" | "compile_cnf" | "compile_sdd" => compile::run(c),
         _ => Err(format!("unknown case kind {kind}")),
     });
